@@ -181,106 +181,7 @@ func c13(c *an.Ctx) {
 	})
 
 	c.Check("R-PROV", "Scanner.Scan gives a []byte column a private copy that is non-nil whenever the source is (an empty value must not come back as NULL)", 2, func(o *an.O) {
-		fn := c.NeedFunc(fieldsPkg, "(*Scanner).Scan")
-		isBytes := func(t types.Type) bool {
-			sl, ok := t.Underlying().(*types.Slice)
-			if !ok {
-				return false
-			}
-			b, ok := sl.Elem().Underlying().(*types.Basic)
-			return ok && b.Kind() == types.Uint8
-		}
-		var classify func(v ssa.Value, d int) string
-		classify = func(v ssa.Value, d int) string {
-			if d > 6 {
-				return ""
-			}
-			switch x := v.(type) {
-			case *ssa.Const:
-				if x.IsNil() {
-					return "nil"
-				}
-			case *ssa.MakeSlice:
-				return "fresh"
-			case *ssa.Convert:
-				return "fresh" // []byte(string)
-			case *ssa.Slice:
-				if _, ok := x.X.(*ssa.Alloc); ok {
-					return "fresh" // []byte{...} literal
-				}
-				return classify(x.X, d+1)
-			case *ssa.ChangeType:
-				return classify(x.X, d+1)
-			case *ssa.Extract:
-				if _, ok := x.Tuple.(*ssa.TypeAssert); ok {
-					return "source"
-				}
-			case *ssa.TypeAssert:
-				return "source"
-			case *ssa.Phi:
-				out := ""
-				for _, e := range x.Edges {
-					k := classify(e, d+1)
-					if k == "source" || k == "nil-append" {
-						return k
-					}
-					if out == "" {
-						out = k
-					}
-				}
-				return out
-			case *ssa.Call:
-				if b, ok := x.Call.Value.(*ssa.Builtin); ok && b.Name() == "append" {
-					switch classify(x.Call.Args[0], d+1) {
-					case "nil":
-						return "nil-append"
-					case "fresh":
-						return "fresh"
-					case "source":
-						return "source"
-					}
-				}
-			}
-			return ""
-		}
-		n := 0
-		an.Instrs(fn, func(i ssa.Instruction) {
-			cc := an.CallOf(i)
-			if cc == nil {
-				return
-			}
-			f := an.CalleeFunc(cc)
-			if f == nil || f.Pkg() == nil || f.Pkg().Path() != "reflect" {
-				return
-			}
-			var stored ssa.Value
-			switch f.Name() {
-			case "SetBytes":
-				stored = cc.Args[len(cc.Args)-1]
-			case "Set":
-				if vo, ok := cc.Args[len(cc.Args)-1].(*ssa.Call); ok {
-					if g := an.CalleeFunc(vo.Common()); g != nil && g.Name() == "ValueOf" {
-						if mi, ok := vo.Call.Args[0].(*ssa.MakeInterface); ok {
-							stored = mi.X
-						}
-					}
-				}
-			}
-			if stored == nil || !isBytes(stored.Type()) {
-				return
-			}
-			n++
-			o.Site(i)
-			switch classify(stored, 0) {
-			case "nil-append":
-				o.FailAt(i, "the copy of a []byte column is built by appending to a nil slice: an empty, non-NULL value is read back as nil, which the writer stores as NULL (empty and NULL are no longer told apart)")
-			case "source":
-				o.FailAt(i, "a []byte column keeps the driver's buffer instead of a copy: the next row overwrites the value that was read")
-			}
-		})
-		if n == 0 {
-			o.Fail(p.Pos(fn.Pos()), "Scanner.Scan no longer stores []byte values (anchor drifted?)")
-		}
+		ruleScannerBytesCopy(c, o)
 	})
 
 	c.Check("R-TABLE", "protobuf filter codec: every kind valueToField emits is decoded by FieldToValue with the matching getter", 2, func(o *an.O) {
@@ -1000,5 +901,111 @@ func ruleValuerOnce(c *an.Ctx, o *an.O) {
 				o.FailAt(e, "Scanner.Scan rejects an integer that the driver delivered: unsigned columns arrive as signed integers of the column's width from the binlog and as negative int64 from Valuer.Value, so values with the top bit set would no longer decode")
 			}
 		}
+	}
+}
+
+// ruleScannerBytesCopy (C13, C07): what Scanner.Scan stores for a []byte column.
+func ruleScannerBytesCopy(c *an.Ctx, o *an.O) {
+	p := c.P
+	_ = p
+	fn := c.NeedFunc(fieldsPkg, "(*Scanner).Scan")
+	isBytes := func(t types.Type) bool {
+		sl, ok := t.Underlying().(*types.Slice)
+		if !ok {
+			return false
+		}
+		b, ok := sl.Elem().Underlying().(*types.Basic)
+		return ok && b.Kind() == types.Uint8
+	}
+	var classify func(v ssa.Value, d int) string
+	classify = func(v ssa.Value, d int) string {
+		if d > 6 {
+			return ""
+		}
+		switch x := v.(type) {
+		case *ssa.Const:
+			if x.IsNil() {
+				return "nil"
+			}
+		case *ssa.MakeSlice:
+			return "fresh"
+		case *ssa.Convert:
+			return "fresh" // []byte(string)
+		case *ssa.Slice:
+			if _, ok := x.X.(*ssa.Alloc); ok {
+				return "fresh" // []byte{...} literal
+			}
+			return classify(x.X, d+1)
+		case *ssa.ChangeType:
+			return classify(x.X, d+1)
+		case *ssa.Extract:
+			if _, ok := x.Tuple.(*ssa.TypeAssert); ok {
+				return "source"
+			}
+		case *ssa.TypeAssert:
+			return "source"
+		case *ssa.Phi:
+			out := ""
+			for _, e := range x.Edges {
+				k := classify(e, d+1)
+				if k == "source" || k == "nil-append" {
+					return k
+				}
+				if out == "" {
+					out = k
+				}
+			}
+			return out
+		case *ssa.Call:
+			if b, ok := x.Call.Value.(*ssa.Builtin); ok && b.Name() == "append" {
+				switch classify(x.Call.Args[0], d+1) {
+				case "nil":
+					return "nil-append"
+				case "fresh":
+					return "fresh"
+				case "source":
+					return "source"
+				}
+			}
+		}
+		return ""
+	}
+	n := 0
+	an.Instrs(fn, func(i ssa.Instruction) {
+		cc := an.CallOf(i)
+		if cc == nil {
+			return
+		}
+		f := an.CalleeFunc(cc)
+		if f == nil || f.Pkg() == nil || f.Pkg().Path() != "reflect" {
+			return
+		}
+		var stored ssa.Value
+		switch f.Name() {
+		case "SetBytes":
+			stored = cc.Args[len(cc.Args)-1]
+		case "Set":
+			if vo, ok := cc.Args[len(cc.Args)-1].(*ssa.Call); ok {
+				if g := an.CalleeFunc(vo.Common()); g != nil && g.Name() == "ValueOf" {
+					if mi, ok := vo.Call.Args[0].(*ssa.MakeInterface); ok {
+						stored = mi.X
+					}
+				}
+			}
+		}
+		if stored == nil || !isBytes(stored.Type()) {
+			return
+		}
+		n++
+		o.Site(i)
+		switch classify(stored, 0) {
+		case "nil-append":
+			o.FailAt(i, "the copy of a []byte column is built by appending to a nil slice: an empty, non-NULL value is read back as nil, which the writer stores as NULL (empty and NULL are no longer told apart)")
+		case "source":
+			o.FailAt(i, "a []byte column keeps the driver's buffer instead of a copy: the next row overwrites the value that was read")
+		}
+	})
+	if n == 0 {
+		o.Fail(p.Pos(fn.Pos()), "Scanner.Scan no longer stores []byte values (anchor drifted?)")
 	}
 }
